@@ -386,7 +386,7 @@ func c10Units(tier string) []*Unit {
 			us = append(us, c10VarUnit(loc, kind))
 		}
 	}
-	us = append(us, c10EnvUnit(false, false), c10EnvUnit(true, false), c10EnvUnit(false, true), c10EnvUnit(true, true), c10SpecialUnit(), c10TwiceUnit(), c10MiscUnit())
+	us = append(us, c10EnvUnit(false, false), c10EnvUnit(true, false), c10EnvUnit(false, true), c10EnvUnit(true, true), c10SpecialUnit(), c10TwiceUnit(), c10MiscUnit(), c10ShEnvUnit())
 	return us
 }
 
@@ -537,6 +537,116 @@ func c10MiscUnit() *Unit {
 		}
 		res.Extra["samples"] = samples
 		res.Stats = vlab.Stats{Scenario: name, Execs: n, States: n, Transitions: n, Outcomes: 2, Exhaustive: true}
+		return res
+	}}
+}
+
+// The environment of a dynamic (sh:) variable's command: $NAME there is the definition of NAME
+// that ranks highest among those evaluated so far, exactly like {{.NAME}} - whether or not
+// another dynamic variable was evaluated before it. Also: the position of a global variable
+// that an included Taskfile redefines (a later global that refers to it still sees a value).
+func c10ShEnvUnit() *Unit {
+	name := "sh-variable-environment-and-global-order"
+	return &Unit{Name: name, Weight: 1, Custom: func(u *Unit, dir string, deadline time.Time) *vlab.UnitResult {
+		res := &vlab.UnitResult{SigCounts: map[string]int{}, Extra: map[string]any{}}
+		n := 0
+		var samples []any
+		run := func(files map[string]string, args []string, want, clause, tag, what string) {
+			os.RemoveAll(dir)
+			os.MkdirAll(dir, 0o755)
+			for rel, c := range files {
+				p := filepath.Join(dir, rel)
+				os.MkdirAll(filepath.Dir(p), 0o755)
+				os.WriteFile(p, []byte(c), 0o644)
+			}
+			so, se, rc := RunCLI(dir, nil, "", args...)
+			n++
+			got := strings.TrimSpace(so)
+			if len(samples) < 3 {
+				samples = append(samples, map[string]any{"case": tag, "output": got})
+			}
+			if rc != 0 || got != want {
+				v := vlab.V("C10", clause, tag, fmt.Sprintf("%s: got %q (status %d %s), expected %q", what, got, rc, firstN(se, 120), want))
+				v.Scenario = name
+				v.Input = map[string]any{"files": files, "args": args}
+				res.SigCounts[v.Sig]++
+				if res.SigCounts[v.Sig] == 1 {
+					res.Violations = append(res.Violations, v)
+				}
+			}
+		}
+		for mask := 0; mask < 8; mask++ {
+			earlierSh, taskDef, globalSh := mask&1 != 0, mask&2 != 0, mask&4 != 0
+			// V1: NAME defined globally and (optionally) in the task's vars, read by a later sh var of the task
+			root := "version: '3'\nvars:\n"
+			if globalSh {
+				root += "  GW: {sh: echo gw}\n"
+			}
+			root += "  NAME: global\ntasks:\n  t:\n    vars:\n"
+			if earlierSh {
+				root += "      W: {sh: echo w}\n"
+			}
+			want := "global"
+			if taskDef {
+				root += "      NAME: task\n"
+				want = "task"
+			}
+			root += "      SEEN: {sh: 'echo $NAME'}\n    cmds:\n      - echo 'SEEN={{.SEEN}} TPL={{.NAME}}'\n"
+			root += "  caller:\n    cmds:\n      - task: callee\n        vars:\n"
+			if earlierSh {
+				root += "          W: {sh: echo w}\n"
+			}
+			root += "          NAME: call\n          SEEN: {sh: 'echo $NAME'}\n  callee:\n    cmds:\n      - echo 'SEEN={{.SEEN}} TPL={{.NAME}}'\n"
+			files := map[string]string{"Taskfile.yml": root}
+			tag := fmt.Sprintf("earlier_sh=%v:task_def=%v:global_sh=%v", earlierSh, taskDef, globalSh)
+			run(files, []string{"--silent", "t"}, "SEEN="+want+" TPL="+want, "wrong_precedence", "sh_env:task_vars:"+tag, "task vars block with a dynamic variable reading $NAME")
+			if !taskDef {
+				run(files, []string{"--silent", "caller"}, "SEEN=call TPL=call", "wrong_precedence", "sh_env:call_vars:"+tag, "call vars with a dynamic variable reading $NAME")
+			}
+		}
+		// a global that an included Taskfile redefines keeps its place in the evaluation order
+		for _, form := range []string{"short", "long", "nested"} {
+			for _, kind := range []string{"template", "sh"} {
+				dep := "'{{.NAME}}-dep'"
+				if kind == "sh" {
+					dep = "{sh: 'echo $NAME-dep'}"
+				}
+				inc := "  inc: ./inc.yml\n"
+				if form != "short" {
+					inc = "  inc:\n    taskfile: ./inc.yml\n"
+				}
+				files := map[string]string{
+					"Taskfile.yml": "version: '3'\nincludes:\n" + inc + "vars:\n  NAME: root\n  DEP: " + dep + "\ntasks:\n  show:\n    cmds:\n      - echo 'DEP={{.DEP}}'\n",
+					"inc.yml":      "version: '3'\nvars:\n  NAME: inc\ntasks:\n  show:\n    cmds:\n      - echo 'DEP={{.DEP}}'\n",
+				}
+				if form == "nested" {
+					files["inc.yml"] = "version: '3'\nincludes:\n  deep: ./deep.yml\ntasks:\n  show:\n    cmds:\n      - echo 'DEP={{.DEP}}'\n"
+					files["deep.yml"] = "version: '3'\nvars:\n  NAME: inc\ntasks:\n  x:\n    cmds: ['true']\n"
+				}
+				for _, req := range []string{"show", "inc:show"} {
+					os.RemoveAll(dir)
+					os.MkdirAll(dir, 0o755)
+					for rel, c := range files {
+						os.WriteFile(filepath.Join(dir, rel), []byte(c), 0o644)
+					}
+					so, se, rc := RunCLI(dir, nil, "", "--silent", req)
+					n++
+					got := strings.TrimSpace(so)
+					// whichever definition of NAME wins, DEP is computed from a defined NAME
+					if rc != 0 || (got != "DEP=root-dep" && got != "DEP=inc-dep") {
+						v := vlab.V("C10", "global_evaluated_before_the_variable_it_refers_to", form+":"+kind, fmt.Sprintf("global DEP refers to the global NAME declared before it (redefined by the included Taskfile): task %s printed %q (status %d %s)", req, got, rc, firstN(se, 100)))
+						v.Scenario = name
+						v.Input = map[string]any{"files": files, "args": []string{req}}
+						res.SigCounts[v.Sig]++
+						if res.SigCounts[v.Sig] == 1 {
+							res.Violations = append(res.Violations, v)
+						}
+					}
+				}
+			}
+		}
+		res.Extra["samples"] = samples
+		res.Stats = vlab.Stats{Scenario: name, Execs: n, States: n, Transitions: n, Outcomes: 3, Exhaustive: true}
 		return res
 	}}
 }
